@@ -32,7 +32,9 @@ def history(rng, length):
                 mops.append('P:%d' % (val != cur[what]))
             cur[what] = val
         elif r < .17:
-            ka = rng.random() < .5
+            # stop_and_join(keep_alive=False) presupposes that all results are in (its documented precondition): while a lazy call
+            # is suspended mid-dispatch only the pausing form is used
+            ka = True if open_gen else rng.random() < .5
             ops.append({'op': 'stop_and_join', 'keep_alive': ka})
             mops.append('J:%d' % ka)
         elif r < .22:
